@@ -152,6 +152,18 @@ func runC07(raw json.RawMessage, w *Writer) {
 	for _, a := range all {
 		w.Emit(Ev{"ev": "call", "g": a.g, "inv": int(a.inv), "ret": int(a.ret), "v": int(a.v), "ref": a.ref})
 	}
+	// hook-less cross-check (public API only): every value is issued once, so the linearization
+	// order is forced by the values; it must respect real time: a call that returned before
+	// another was invoked holds the smaller position. Emitted for runs shorter than one wrap.
+	if c.Kind != "random" && len(all) < 65536 {
+		byPos := make([]flat, len(all))
+		copy(byPos, all)
+		start := uint16(c.Start)
+		sort.SliceStable(byPos, func(i, j int) bool { return uint16(byPos[i].v-start) < uint16(byPos[j].v-start) })
+		for k, a := range byPos {
+			w.Emit(Ev{"ev": "lin", "pos": k, "inv": int(a.inv), "ret": int(a.ret), "v": int(a.v)})
+		}
+	}
 	emitRead := func(g int, inv, ret int64, roc uint64) {
 		lo := sort.Search(len(hooks), func(i int) bool { return hooks[i].c > inv })  // hooks[0:lo] happened before inv
 		hi := sort.Search(len(hooks), func(i int) bool { return hooks[i].c > ret })  // hooks[0:hi] happened before ret
